@@ -225,6 +225,21 @@ func GenQueries(g *Gen, n int) []Query {
 	}
 	for i := 0; i < n; i++ {
 		name, cls := pickName()
+		if i >= 3 && i < 7 {
+			// the longest declared names (keys of 96 bytes and more) and names below them
+			var best Name
+			for _, nm := range g.Names {
+				if len(nm.Pack()) >= 94 && (best == nil || r.Chance(1, 2)) {
+					best = nm
+				}
+			}
+			if best != nil {
+				name, cls = append(Name{}, best...), "longname"
+				if i%2 == 0 && len(name.Pack()) < 240 {
+					name = name.Child(g.label())
+				}
+			}
+		}
 		if i < 3 {
 			// always a few queries at and below delegation points / NS owners
 			for _, l := range g.Lines {
